@@ -71,6 +71,10 @@ def scn(params):
     sim = scen.Sim("c20-%d" % params["idx"], seed)
     try:
         k = sim.k
+        J = 0
+        if params.get("jitter"):
+            k.sched_jitter = tuple(params["jitter"])     # iodined is resumed late now and then: queries and replies wait together
+            J = params["jitter"][1] + 3000               # (every step of the history waits that much longer for its effect)
         srv = sim.server(extra=["-b", str(BIND_PORT)] + (["-c"] if params["opt_c"] else []), stdin_closed=bool(params.get("stdin_closed")))
         if not srv.alive():
             out["inconclusive"] = "server-died-at-start"
@@ -124,7 +128,7 @@ def scn(params):
                 if busy:
                     k.run(k.now + 1500)
                     k.thaw("srv")
-                k.run(k.now + rng.choice([3000, 20000, 300000]))
+                k.run(k.now + rng.choice([3000, 20000, 300000]) + J)
                 res.down = False
                 out["stats"]["outages"] = out["stats"].get("outages", 0) + 1
                 recv_src = {ev[3]["id"]: ev[3]["src"] for ev in srv_events(mark) if ev[1] == "recv"}
@@ -160,7 +164,7 @@ def scn(params):
                     k.send_faults.append({"proc": "srv", "dst_port": BIND_PORT, "errno": rng.choice([105, 1, 111]), "count": 1})
                 r.send(sport, (scen.SERVER_IP6 if v6 else scen.SERVER_IP, 53), q)
                 n0 = len(res.got)
-                k.run(k.now + rng.choice([2500, 2500, 10000]))
+                k.run(k.now + rng.choice([2500, 2500, 10000]) + J)
                 out["stats"]["fwd_queries"] += 1
                 out["stats"]["v6_requests"] += int(v6)
                 new = res.got[n0:]
@@ -222,7 +226,7 @@ def scn(params):
                     dst = cand[-1]
                 marks = {r.ip: len(r.got) for r in reqs}
                 res.send(BIND_PORT, dst, body)
-                k.run(k.now + 3000)
+                k.run(k.now + 3000 + J)
                 out["stats"]["replies"] += 1
                 got = [(r.ip, g) for r in reqs for g in r.got[marks[r.ip]:]]
                 rid = struct.unpack(">H", body[:2])[0] if len(body) >= 12 else 0
@@ -283,7 +287,7 @@ def scn(params):
                                                   % (rid, [(ip, g[2]) for ip, g in got]), dict(wit, time_us=k.now, window=repr(recent)[:400])))
             elif op == "tunnel":
                 if tunnel_ok:
-                    mc.ping(20000)
+                    mc.ping(20000 + J)
             else:
                 k.run(k.now + rng.choice([1000, 100000, 2 * US]))
         out["evaluations"] = out["stats"]["fwd_queries"] + out["stats"]["replies"]
@@ -319,7 +323,7 @@ def run(ctx):
     plist = [{"idx": i, "seed": ctx.seed * 100000 + i, "rseed": rng.getrandbits(32), "nops": rng.randint(60, 250),
               "idspace": rng.choice([3, 4, 6, 10, 20]), "nreq": rng.randint(2, 12), "v6": rng.random() < 0.3,
               "opt_c": rng.random() < 0.2, "p_sendfault": rng.choice([0, 0, 0, 0.05, 0.1, 0.3]), "stdin_closed": i % 5 == 2,
-              "flagbits": i % 3 == 1, "outages": i % 4 == 1} for i in range(n)]
+              "flagbits": i % 3 == 1, "outages": i % 4 == 1, "jitter": [None, None, [0.3, 3000], [0.6, 15000]][(i // 4) % 4]} for i in range(n)]
     if ctx.replay and "params" in ctx.replay["witness"]:
         plist = [ctx.replay["witness"]["params"]]
     res.min_evaluations = 0 if ctx.replay else 100000
